@@ -77,7 +77,7 @@ func (w *world) runPendingWatchdog(limit time.Duration) error {
 
 func TestC03_PendingLedger(t *testing.T) {
 	rec := evid.For("C03")
-	rec.SetRule("rapid state machine over a world of 2..5 objects (conns, adapter, FIFO ends, listener, packet conn, regular file) plus 0..3 timers and Post on one IO: start ops (top level / dispatch limit), peer actions, Cancel, Close, timer ScheduleOnce/Cancel/Close, sleep, Post (top level, from completion handlers, and 1..2 levels deep from inside posted handlers), failing registrations (regular file at the dispatch limit -> EPERM; descriptor replaced underneath -> epoll_ctl fails on register and on Close); after every top-level step IO.Pending() must equal the harness ledger (ops in flight + armed timers + posted-not-run handlers); PollOne: n>0 iff a handler ran is required one way (handler ran => n>0), n==0 => ErrTimeout, and with an empty ledger (0,ErrTimeout); end of case: everything in flight is made ready, then RunPending (under a 10 s watchdog) must return nil with an empty ledger and every op completed once, and return immediately when called again; non-trivial = >=3 kinds of ledger entry in one history OR a failed registration; distinct = hash of the trace")
+	rec.SetRule("rapid state machine over a world of 2..5 objects (conns, adapter, FIFO ends, listener, packet conn, regular file) plus 0..3 timers and Post on one IO: start ops (top level / dispatch limit), peer actions, Cancel, Close, timer ScheduleOnce/Cancel/Close, sleep, Post (top level, from completion handlers, and 1..2 levels deep from inside posted handlers; bursts of 100..3000 between two polls), failing registrations (regular file at the dispatch limit -> EPERM; descriptor replaced underneath -> epoll_ctl fails on register and on Close); after every top-level step IO.Pending() must equal the harness ledger (ops in flight + armed timers + posted-not-run handlers); PollOne: n>0 iff a handler ran is required one way (handler ran => n>0), n==0 => ErrTimeout, and with an empty ledger (0,ErrTimeout); end of case: everything in flight is made ready, then RunPending (under a 10 s watchdog) must return nil with an empty ledger and every op completed once, and return immediately when called again; non-trivial = >=3 kinds of ledger entry in one history OR a failed registration; distinct = hash of the trace")
 	rec.Assume("operation sizes <= 4 KiB so that one peer action makes an operation completable")
 	vt.CheckSteps(t, 1200, 30, func(rt *rapid.T) {
 		w := newWorld(rt)
@@ -332,6 +332,20 @@ func TestC03_PendingLedger(t *testing.T) {
 				w.log("sleep(%d)", ms)
 			},
 			"post": func(rt *rapid.T) { post("top", rapid.IntRange(0, 2).Draw(rt, "nest")) },
+			"postBurst": func(rt *rapid.T) {
+				// many handlers queued between two polls: each of them is in flight until it has run, no more and no less
+				if rapid.IntRange(0, 5).Draw(rt, "really") != 0 {
+					rt.Skip("rarely")
+				}
+				n := rapid.SampledFrom([]int{100, 1000, 1024, 1025, 1500, 3000}).Draw(rt, "burst")
+				w.log("top:Post x%d", n)
+				for i := 0; i < n; i++ {
+					w.postsPending++
+					if err := w.ioc.Post(func() { w.postsPending--; w.handlersInPoll++ }); err != nil {
+						w.fail("Post: %v", err)
+					}
+				}
+			},
 			"poll": func(rt *rapid.T) {
 				empty := w.ledger() == 0
 				n, err := w.pollOnce()
